@@ -1,7 +1,9 @@
 import Mutagen.Driver.Util
+import Mutagen.Driver.Tree
 namespace Mutagen.Driver.C01
 
-/-- Model-side handler for one line of the C01 correspondence stream. -/
-def handle (_line : String) : String := "unimplemented"
+/-- Line: `<mode> <A> <alpha> <beta>` (encoding of `Driver/Tree.lean`); answer:
+the canonical plan `anc=… alpha=… beta=… conf=…` of the model's `Reconcile`. -/
+def handle (line : String) : String := Mutagen.Driver.Tree.handleReconcile line
 
 end Mutagen.Driver.C01
